@@ -78,7 +78,8 @@ TRACE_DEFS = LOG_DEF + "\nMCPatterns == << >>"
 
 LAYOUTS = {"R2": [(2, True)], "R1N1": [(1, True), (1, False)], "N1R2": [(1, False), (2, True)], "N2": [(2, False)],
            "R1N1R1": [(1, True), (1, False), (1, True)], "R3": [(3, True)], "R2N1R1": [(2, True), (1, False), (1, True)],
-           "N1R2N1": [(1, False), (2, True), (1, False)], "R2R2": [(2, True), (2, True)]}
+           "N1R2N1": [(1, False), (2, True), (1, False)], "R2R2": [(2, True), (2, True)], "R1N2": [(1, True), (2, False)],
+           "N2R2": [(2, False), (2, True)]}
 
 
 # ------------------------------------------------------------------------------------------------------------
@@ -409,6 +410,8 @@ def records_for(src):
                 invrec = read_inversion(inversion, objs_abs, lat, sc, sx, ss)
         except Exception as ex:  # the property gives no licence to raise on a valid dataset
             rec["raised"] = type(ex).__name__ + ": " + str(ex)[:120]
+            if inversion is not None:
+                rec["inv"] = {"objs": objs_abs}
             rec.update({"res": [], "nres2": [], "chi2map4": [], "sn2": [], "chi2q": OFF, "chi2_fix": OFF, "rchi2_fix": OFF,
                         "nn_fix": OFF, "ll_fix": OFF, "fom_fix": OFF, "res_fix": [], "chi2map_fix": [], "m_fix": []})
             recs.append(rec)
@@ -641,7 +644,8 @@ def run(ctx):
         "values": [-2, 3], "noise_exponents": [-1, 0, 1],
         "skies": [-1, 0, 2],
         "patterns": 4 if quick else 8,
-        "layouts": ["R2", "R1N1", "N1R2", "N2", "R1N1R1"] if quick else ["R2", "R1N1", "N1R2", "N2", "R1N1R1", "R3", "R2N1R1", "N1R2N1", "R2R2"],
+        "layouts": ["R2", "R1N1", "N1R2", "N2", "R1N1R1", "R1N2"] if quick
+        else ["R2", "R1N1", "N1R2", "N2", "R1N1R1", "R1N2", "R3", "R2N1R1", "N1R2N1", "R2R2", "N2R2"],
         "design_matrix_values": [0, 1], "design_matrix_rows": 2,
         "reg_kinds": [(1, 0), (4, 0), (4, 1)],
         "reconstruction_patterns": [[1, 2, 3, 1], [3, 0, 2, 5]],
@@ -680,7 +684,7 @@ def run(ctx):
     ctx.sample({"real_inversion_record": {k: v for k, v in rl.items() if k not in ("_src", "id")},
                 "regularizations": rl["_src"]["inv"]["regs"], "layout": [o["type"] for o in rl["_src"]["inv"]["inst"]["objs"]]})
     rejects = validate(ctx, recs, "C08")
-    lat = [r for r in recs if r["hasinv"] and r["inv"]["lat"]]
+    lat = [r for r in recs if r["hasinv"] and r["inv"].get("lat")]
     decided = sum(1 for r in lat if _det_decidable(r["inv"]))
     decided_real = sum(1 for r in lat if r["_src"]["inv"]["kind"] == "real" and _det_decidable(r["inv"]))
     solved = len({r["_src"]["sid"] for r in recs if r["_src"]["inv"]["kind"] == "real"})
